@@ -618,3 +618,33 @@ def c18(ctx, replay):
     return V.finish(ctx, "C18", verdict, cov,
                     ["goroutine interleavings are those the race detector observes under the forced completion orders",
                      "map iteration orders are sampled by repetition", "rendered output compared with colour off and distinct timestamps"])
+
+
+@prop("C05")
+def c05(ctx, replay):
+    inv = ["GeneratedAreWellFormed", "MutationsKnown"]
+    mcs = [dict(name="parse", module="MC_Parse", consts=dict(MaxStages=T(ctx, 2, 3), Pools=V.tla_str(T(ctx, "quick", "full")) if ctx.tier == "quick" else V.tla_str("quick")),
+                invariants=inv, timeout=5400)]
+    if ctx.tier != "quick":
+        mcs.append(dict(name="parse-full", module="MC_Parse", consts=dict(MaxStages=2, Pools=V.tla_str("full")), invariants=inv))
+
+    def nontrivial(scns):
+        seen = set()
+        for sid, lines in scns:
+            i = json.loads(lines[0])["in"]
+            seen.add(json.dumps([i["kind"], i["sel"], i["stages"], i.get("expr"), i["mut"]], sort_keys=True))
+        return len(seen)
+    return std(ctx, "C05", mc=mcs, harness_cmd="parse", trace_module="Trace_Parse", nrand=T(ctx, 6000, 80000), replay=replay,
+               nontrivial=nontrivial, exhaustive=True, chunk_events=20000,
+               rule="step 1: ASTs drawn per syntactic position from pools (4 selectors, every stage kind in sequences of <=2 (quick) / "
+                    "<=3 (thorough), 60 range aggregations over all 13 operations with unwrap/conversion/parameter/grouping/range/offset, 40 "
+                    "vector aggregations, 40 binary operations, vector()); static rules hold for each; every AST is exported under 6 "
+                    "layouts (spaces, newlines, tabs, comments between all tokens, back-quoted strings, redundant parentheses, grouping "
+                    "before/after the operand, compound durations) and with every applicable forbidden mutation (9 for log, 14 for metric "
+                    "queries); logql.Parse is run on each text and TLC compares the projected tree with the AST's wire form (valid) or "
+                    "requires rejection (mutated); random driver: queries of the C01/C06/C07/C09/C11/C12 generators under random "
+                    "layouts and mutations; non-trivial = distinct (AST, mutation)",
+               assumptions=["texts are written by the harness from the AST (renderer errors show up as mismatches and are investigated)",
+                            "error messages, the tree shape of equal-precedence binary chains (C13) and the grouping of unparenthesised "
+                            "mixed and/or predicates are left open (operands of binary operations are parenthesised)",
+                            "on/ignoring, label_replace, parser flags, ip() and the regexp stage are not generated"])
